@@ -167,6 +167,8 @@ func (n *refNode) Field(r node.FieldRequest, hnd *node.ValueHandle) error {
 	return nil
 }
 
+func HasData(d *DNode, sn *SNode) bool { return hasData(d, sn) }
+
 func hasData(d *DNode, sn *SNode) bool {
 	switch sn.Kind {
 	case Leaf, LeafList:
